@@ -37,6 +37,10 @@ def future_poll(ctx):
         loc = (v.cell, v.path)
         v = ex.load(st, v.cell, v.path)
         seen += 1
+    if getattr(ex, 'trace_awaits', False) and not (isinstance(v, Future) and v.kind == 'lock-acquire'):
+        what = v.kind if isinstance(v, Future) else (v.name if isinstance(v, Agg) else getattr(v, 'ty', type(v).__name__))
+        if not (isinstance(v, Agg) and v.name.startswith(('{coroutine@', '{async'))):
+            st.trace.append(('await', str(what)[:120], st.env.get('held', ())))
     if isinstance(v, Future):
         h = AWAIT.get(v.kind)
         if h is None:
